@@ -59,6 +59,12 @@ type AppA struct {
 	cur     time.Time
 	opened  bool
 	pending []Op
+	// Sched is what the application actually processed, in order: a block operation for every
+	// delivered block (several blocks may carry the same time), the transactions of that block, and
+	// the keeper-level operations in between.
+	Sched []Op
+	// SeqMismatch counts transactions rejected for a wrong account sequence / signature.
+	SeqMismatch int
 }
 
 // BlockA is what one block produced.
@@ -205,10 +211,16 @@ func (x *AppA) deliver(t time.Time, msgs []Op) BlockA {
 		}
 		txs = append(txs, bz)
 		blk.Txs = append(blk.Txs, o)
-		x.seq[signer]++ // the ante handler increments the sequence even when the message fails
+		// the ante handler increments the sequence even when the message fails later; a message
+		// that fails its stateless validation is rejected before the ante handler runs
+		if vb, ok := msg.(sdk.HasValidateBasic); !ok || vb.ValidateBasic() == nil {
+			x.seq[signer]++
+		}
 	}
 	x.Height++
 	x.Now = t
+	x.Sched = append(x.Sched, Op{Kind: OpBlock, Time: t})
+	x.Sched = append(x.Sched, blk.Txs...)
 	resp, err := func() (r *abci.ResponseFinalizeBlock, err error) {
 		defer func() {
 			if rec := recover(); rec != nil {
@@ -237,6 +249,7 @@ func (x *AppA) deliver(t time.Time, msgs []Op) BlockA {
 			// a failed transaction whose signature check failed does not bump the sequence
 			if strings.Contains(r.Log, "account sequence mismatch") || strings.Contains(r.Log, "signature verification failed") {
 				x.seq[txSigner(blk.Txs[i])]--
+				x.SeqMismatch++ // a transaction lost to the harness's own bookkeeping (should stay 0)
 			}
 		}
 	}
@@ -244,6 +257,14 @@ func (x *AppA) deliver(t time.Time, msgs []Op) BlockA {
 		blk.Err = err.Error()
 		if x.Failed == "" {
 			x.Failed = fmt.Sprintf("Commit height %d: %v", x.Height, err)
+		}
+	}
+	// resynchronise with the committed account sequences (whatever the reason a transaction failed)
+	for _, o := range blk.Txs {
+		if sg := txSigner(o); sg >= 0 {
+			if acc := x.B.App.AccountKeeper.GetAccount(x.Ctx(), Addrs[sg]); acc != nil {
+				x.seq[sg] = acc.GetSequence()
+			}
 		}
 	}
 	blk.AppHash = fmt.Sprintf("%X", resp.AppHash)
@@ -303,6 +324,7 @@ func (x *AppA) direct(o Op) {
 		return
 	}
 	w := &World{B: x.B, Ctx: x.Ctx(), Now: x.Now, Height: x.Height}
+	x.Sched = append(x.Sched, o)
 	res := w.Apply(o)
 	x.KeeperOK = append(x.KeeperOK, res.OK)
 }
